@@ -188,6 +188,24 @@ theorem parse_isotime_scan_render_gen (tf : TimeForm) (o : OffForm) (x : Fields)
                             us := (timeShown tf x).2.2.2, tz := offDenote o x }) := by
   rw [IsoGen.parseIsotime_eq, parseIsotime_render tf x _ _ htf hw (offTail_render o x ho)]; rfl
 
+/-- the translated body of `parse_isodate` inverts every date form (the value is the date's ordinal) -/
+theorem parse_isodate_render_gen (df : DateForm) (x : Fields) (hwf : dateWF true df x = true)
+    (hr : dateOrdinal df x ≤ maxOrdinal) :
+    Gen.parseIsodateEntry (renderDate df x) = .ok (dateOrdinal df x) := by
+  rw [IsoGen.parseIsodateEntry_eq, parse_isodate_render df x hwf hr]
+  simp only [Except.map]
+  rw [(toOrdinal_fromOrdinal _ (dateOrdinal_pos df x hwf)).1]
+
+/-- the translated body of `parse_isotime` inverts every time form × offset form (24:00 reads as 00:00) -/
+theorem parse_isotime_render_gen (tf : TimeForm) (o : OffForm) (x : Fields) (htf : tf ≠ .none)
+    (hw : timeWF tf x = true) (ho : offWF o x = true) :
+    Gen.parseIsotimeEntry (renderTime tf x ++ renderOff o x) =
+      .ok (IsoGen.compsOf
+        { h := if (timeShown tf x).1 = 24 then 0 else ((timeShown tf x).1 : Int),
+          m := (timeShown tf x).2.1, s := (timeShown tf x).2.2.1, us := (timeShown tf x).2.2.2,
+          tz := offDenote o x }) := by
+  rw [IsoGen.parseIsotimeEntry_eq, parse_isotime_render tf o x htf hw ho]; rfl
+
 /-- str, bytes and stream inputs are equivalent: for ASCII text every `@_takes_ascii` entry point computes the
     same result whichever way the text arrives (model of `_takes_ascii`; the decorator itself is hand-modelled) -/
 theorem input_kinds_equivalent {α} (f : Iso.Bytes → Py.R α) (t : List Nat) (h : ∀ c ∈ t, c < 128) :
